@@ -168,7 +168,7 @@ func VPH_table() {
 	// are picked from a menu around their references and the threshold is free.
 	par := []uint32{0, 5, 10, 15}[vp_Choice("parents", 4)]     // reference 10
 	ent := []uint32{0, 999, 1000, 1999}[vp_Choice("entries", 4)] // reference 1000
-	lnk := []uint32{0, 25000, 49999}[vp_Choice("links", 3)]      // reference 25e3
+	lnk := []uint32{0, 25000, 49999, 1<<32 - 1}[vp_Choice("links", 4)] // reference 25e3; the last one is saturated
 	var rendered []uint64
 	if !vp_Native() {
 		// numerals are C12's subject; keep them out of the table text, but record what is rendered
@@ -187,7 +187,7 @@ func VPH_table() {
 	out := hs.TableString(nil, Threshold(t), NameStyleNone)
 	showPar := !(float64(par)/10 < t)
 	showEnt := !(float64(ent)/1000 < t)
-	showLnk := !(float64(lnk)/25e3 < t)
+	showLnk := lnk == 1<<32-1 || !(float64(lnk)/25e3 < t) // a saturated value is always shown
 	// all other metrics are 0 and 0/scale < t
 	has := func(s string) bool { return strings.Contains(out, s) }
 	vp_Assert(has("Maximum parents") == showPar, "row 'Maximum parents' shown iff it qualifies")
